@@ -299,12 +299,14 @@ def gen_c17(g, run_seed, tier, opts):
     for _ in range(cfg["nsteps"]):
         u = g.random()
         if u < cfg["user_p"]:
-            kind = g.choice(["draw", "draw", "draw", "reseed", "getstate", "setstate"])
+            kind = g.choice(["draw", "draw", "draw", "reseed", "getstate", "setstate", "loglevel"])
             if kind == "draw":
                 act = ["draw", g.choice(["rand", "randn", "normal", "randint", "permutation", "shuffle", "random"]),
                        g.randint(1, 6)]
             elif kind == "reseed":
                 act = ["reseed", g.randrange(2**32)]
+            elif kind == "loglevel":
+                act = ["loglevel", g.choice(["DEBUG", "INFO", "WARNING", "ERROR"])]
             else:
                 act = [kind]
             add({"op": "user", "act": act, "slot": "s%d" % g.randint(0, 1)})
